@@ -474,6 +474,14 @@ class Impl:
         """-> canonical result; exceptions -> ('E', class name, message)"""
         k = op[0]
         top = self.top
+        if self.case.get('listing'):
+            # print(cache) / repr(cache) between the operations: listing the cache is not an access
+            for c in self.caches:
+                try:
+                    str(c)
+                    repr(c)
+                except Exception:   # noqa: BLE001
+                    pass
         try:
             if k == 'get':
                 _, name, sel, ext, props = op
@@ -940,6 +948,7 @@ def gen_single(rng):
     case = dict(kind='s', parts=[part], aliases=aliases, cprops=[], restore=rng.random() < 0.5,
                 ops=gen_ops(rng, names, dtypes, [len(dumps)], 's', len(part['getters']), part['virt']))
     fix_setg_dtypes(case, dtypes)
+    case['listing'] = rng.random() < 0.25
     return case
 
 
